@@ -1,3 +1,124 @@
 import Driver.Common
-/-! stub: replaced by the owner of this driver -/
-def main : IO Unit := Driver.run () (fun s _ => (s, "bad-op"))
+import ScionVerif.Model.AddrText
+/-! line-protocol driver for the address / identifier text model (C15)
+
+`p <kind> <hex of the UTF-8 string>`  →  `ok <canonical value>` | `err` | `panic`
+`s <kind> <value …>`                  →  `<hex of the UTF-8 displayed form>`
+kinds: isd asn ia svc host ip ip4 ip6 addr addrsvc addrv4 addrv6 ipaddr sock socksvc sockv4 sockv6 ipsock
+       legacysock txt.   host values: `4:<u32>` `6:<u128>` `s:<u16>`.
+-/
+open ScionVerif.AddrText Driver
+
+def C : HostCodec := stdCodec
+
+def decodeStr (hx : String) : Option Str :=
+  match parseHex hx with
+  | some bs => (String.fromUTF8? (ByteArray.mk bs.toArray)).map String.toList
+  | none => none
+
+def encodeStr (s : Str) : String := toHex (String.ofList s).toUTF8.toList
+
+def hostStr : Host → String
+  | .v4 a => s!"4:{a}"
+  | .v6 a => s!"6:{a}"
+  | .svc v => s!"s:{v}"
+
+def parseHostArg (w : String) : Option Host :=
+  match w.splitOn ":" with
+  | ["4", n] => n.toNat?.map Host.v4
+  | ["6", n] => n.toNat?.map Host.v6
+  | ["s", n] => n.toNat?.map Host.svc
+  | _ => none
+
+def resStr {α : Type} (f : α → String) : Res α → String
+  | .ok v => "ok " ++ f v
+  | .err => "err"
+  | .panic => "panic"
+
+def optStr {α : Type} (f : α → String) : Option α → String
+  | some v => "ok " ++ f v
+  | none => "err"
+
+def addrStr (a : ScionAddr) : String := s!"{a.ia} {hostStr a.host}"
+def sockStr (a : SocketAddr) : String := s!"{a.ia} {hostStr a.host} {a.port}"
+
+def natStr (n : Nat) : String := toString n
+
+def sockT {α : Type} (f : α → Host) (r : Res ((Nat × α) × Nat)) : String :=
+  resStr (fun (x : (Nat × α) × Nat) => sockStr ⟨x.1.1, f x.1.2, x.2⟩) r
+
+def addrT {α : Type} (f : α → Host) (r : Res (Nat × α)) : String :=
+  resStr (fun (x : Nat × α) => addrStr ⟨x.1, f x.2⟩) r
+
+def doParse (kind : String) (s : Str) : Option String :=
+  match kind with
+  | "isd" => some (optStr natStr (parseIsd s))
+  | "asn" => some (optStr natStr (parseAsn s))
+  | "ia" => some (resStr natStr (parseIsdAsn s))
+  | "svc" => some (optStr natStr (parseSvc s))
+  | "host" => some (optStr hostStr (parseHost C s))
+  | "ip" => some (optStr hostStr (parseIp C s))
+  | "ip4" => some (optStr natStr (C.parse4 s))
+  | "ip6" => some (optStr natStr (C.parse6 s))
+  | "addr" => some (resStr addrStr (parseScionAddr C s))
+  | "addrsvc" => some (addrT Host.svc (parseScionAddrT parseSvc s))
+  | "addrv4" => some (addrT Host.v4 (parseScionAddrT C.parse4 s))
+  | "addrv6" => some (addrT Host.v6 (parseScionAddrT C.parse6 s))
+  | "ipaddr" => some (resStr addrStr (parseScionIpAddr C s))
+  | "sock" => some (resStr sockStr (parseSocketAddr C s))
+  | "socksvc" => some (sockT Host.svc (parseSocketT (parseScionAddrT parseSvc) s))
+  | "sockv4" => some (sockT Host.v4 (parseSocketT (parseScionAddrT C.parse4) s))
+  | "sockv6" => some (sockT Host.v6 (parseSocketT (parseScionAddrT C.parse6) s))
+  | "ipsock" => some (resStr sockStr (parseSocketIpAddr C s))
+  | "legacysock" =>
+    -- the pre-repair `ScionSocketAddr::from_str` (service, IPv4, IPv6)
+    some (match parseSocketLegacyT (parseScionAddrT parseSvc) s with
+      | .ok x => sockT Host.svc (.ok x)
+      | .panic => "panic"
+      | .err =>
+        match parseSocketLegacyT (parseScionAddrT C.parse4) s with
+        | .ok x => sockT Host.v4 (.ok x)
+        | .panic => "panic"
+        | .err => sockT Host.v6 (parseSocketLegacyT (parseScionAddrT C.parse6) s))
+  | "txt" => some (resStr (fun l => ";".intercalate (l.map addrStr)) (parseTxt C s))
+  | _ => none
+
+def parseAddrArgs : List String → Option (List ScionAddr)
+  | [] => some []
+  | ia :: h :: rest =>
+    match ia.toNat?, parseHostArg h, parseAddrArgs rest with
+    | some ia, some h, some more => some (⟨ia, h⟩ :: more)
+    | _, _, _ => none
+  | _ => none
+
+def doShow : List String → Option Str
+  | ["isd", n] => n.toNat?.map showIsd
+  | ["asn", n] => n.toNat?.map showAsn
+  | ["ia", n] => n.toNat?.map showIsdAsn
+  | ["svc", n] => n.toNat?.map showSvc
+  | ["ip4", n] => n.toNat?.map C.show4
+  | ["ip6", n] => n.toNat?.map C.show6
+  | ["host", h] => (parseHostArg h).map (showHost C)
+  | ["addr", ia, h] =>
+    match ia.toNat?, parseHostArg h with
+    | some ia, some h => some (showScionAddr C ⟨ia, h⟩)
+    | _, _ => none
+  | ["sock", ia, h, p] =>
+    match ia.toNat?, parseHostArg h, p.toNat? with
+    | some ia, some h, some p => some (showSocketAddr C ⟨ia, h, p⟩)
+    | _, _, _ => none
+  | "txt" :: rest => (parseAddrArgs rest).map (showTxt C)
+  | _ => none
+
+def step (st : Unit) : List String → Unit × String
+  | ["p", kind, hx] =>
+    match decodeStr hx with
+    | some s => (st, (doParse kind s).getD "bad-op")
+    | none => (st, "bad-op")
+  | "s" :: args =>
+    match doShow args with
+    | some s => (st, encodeStr s)
+    | none => (st, "bad-op")
+  | _ => (st, "bad-op")
+
+def main : IO Unit := Driver.run () step
